@@ -628,6 +628,75 @@ Qed.
 
 End Probe.
 
+(* ------------------------------------------------------------------ the shape of a probe
+   (audit 4, A3): what the wrapped program issues around a flagged look at an output p of O'.
+   Where p exists: the one Stat, nothing else.  Where it is absent: the Stat, then exactly
+   `probe_ops cid k p` = k further Stats, the creation, the removal - whatever those operations
+   return - and then the core goes on from the erased history eh ++ [OKind PExists], the same in
+   both cases.  With k = 1 this is the system-call sequence of the real run_mapping
+   (cli/from_specified_markers.py:122-139) as strace shows it:
+     fresh   stat p = ENOENT ; lstat p = ENOENT ; open(p, O_CREAT|O_TRUNC) ; unlink p
+     stale   stat p = file *)
+Lemma pstate_app_pending : forall O' cid k cr xs h eh l rest,
+  pstate O' cid k cr h = (eh, l ++ rest) -> length xs = length l ->
+  pstate O' cid k cr (h ++ xs) = (eh, rest).
+Proof.
+  intros O' cid k cr xs. induction xs as [|x xs IH]; intros h eh l rest H L.
+  - destruct l; [|discriminate]. rewrite app_nil_r. exact H.
+  - destruct l as [|o l]; [discriminate|].
+    replace (h ++ x :: xs) with ((h ++ [x]) ++ xs) by (rewrite <- app_assoc; reflexivity).
+    apply (IH _ eh l rest).
+    + unfold pstate in *. rewrite fold_left_app, H. reflexivity.
+    + simpl in L. lia.
+Qed.
+
+Theorem wrapP_probe_shape : forall O' cid k cr h eh p r,
+  pstate O' cid k cr h = (eh, []) -> cr eh = (Stat p r, true) -> mem p O' = true ->
+  wrapP O' cid k cr h = Stat p r /\
+  (forall l1 o l2 xs, probe_ops cid k p = l1 ++ o :: l2 -> length xs = length l1 ->
+     wrapP O' cid k cr (h ++ OKind PAbsent :: xs) = o) /\
+  (forall xs, length xs = length (probe_ops cid k p) ->
+     pstate O' cid k cr (h ++ OKind PAbsent :: xs) = (eh ++ [OKind PExists], [])) /\
+  (forall x, is_absent x = false -> pstate O' cid k cr (h ++ [x]) = (eh ++ [OKind PExists], [])).
+Proof.
+  intros O' cid k cr h eh p r S C M.
+  assert (SA : pstate O' cid k cr (h ++ [OKind PAbsent]) = (eh ++ [OKind PExists], probe_ops cid k p)).
+  { unfold pstate in *. rewrite fold_left_app, S. cbn [fold_left]. unfold pfeed. cbn [fst snd].
+    rewrite C, M. reflexivity. }
+  split; [|split; [|split]].
+  - unfold wrapP. rewrite S. unfold pnext. cbn [fst snd]. rewrite C. reflexivity.
+  - intros l1 o l2 xs E L.
+    replace (h ++ OKind PAbsent :: xs) with ((h ++ [OKind PAbsent]) ++ xs) by (rewrite <- app_assoc; reflexivity).
+    unfold wrapP. rewrite E in SA. rewrite (pstate_app_pending O' cid k cr xs _ _ l1 (o :: l2) SA L).
+    reflexivity.
+  - intros xs L.
+    replace (h ++ OKind PAbsent :: xs) with ((h ++ [OKind PAbsent]) ++ xs) by (rewrite <- app_assoc; reflexivity).
+    apply (pstate_app_pending O' cid k cr xs _ _ (probe_ops cid k p) []); [rewrite app_nil_r; exact SA | exact L].
+  - intros x A. unfold pstate in *. rewrite fold_left_app, S. cbn [fold_left]. unfold pfeed. cbn [fst snd].
+    rewrite C, M, A. reflexivity.
+Qed.
+
+(* k = 1, spelled out: the four operations of the real probe, then the core again *)
+Corollary real_probe_is_instance : forall O' cid cr h eh p r x1 x2 x3,
+  pstate O' cid 1 cr h = (eh, []) -> cr eh = (Stat p r, true) -> mem p O' = true ->
+  wrapP O' cid 1 cr h = Stat p r /\
+  wrapP O' cid 1 cr (h ++ [OKind PAbsent]) = Stat p PAbsent /\
+  wrapP O' cid 1 cr (h ++ [OKind PAbsent; x1]) = Create p true cid /\
+  wrapP O' cid 1 cr (h ++ [OKind PAbsent; x1; x2]) = Unlink p /\
+  wrapP O' cid 1 cr (h ++ [OKind PAbsent; x1; x2; x3]) = fst (cr (eh ++ [OKind PExists])) /\
+  wrapP O' cid 1 cr (h ++ [OKind PFile]) = fst (cr (eh ++ [OKind PExists])).
+Proof.
+  intros O' cid cr h eh p r x1 x2 x3 S C M.
+  destruct (wrapP_probe_shape O' cid 1 cr h eh p r S C M) as [A [B [D E]]].
+  split; [exact A|].
+  split; [exact (B [] (Stat p PAbsent) [Create p true cid; Unlink p] [] eq_refl eq_refl)|].
+  split; [exact (B [Stat p PAbsent] (Create p true cid) [Unlink p] [x1] eq_refl eq_refl)|].
+  split; [exact (B [Stat p PAbsent; Create p true cid] (Unlink p) [] [x1; x2] eq_refl eq_refl)|].
+  split.
+  - unfold wrapP. rewrite (D [x1; x2; x3] eq_refl). reflexivity.
+  - unfold wrapP. rewrite (E (OKind PFile) eq_refl). reflexivity.
+Qed.
+
 (* ------------------------------------------------------------------ the theorem *)
 (* f2 STALE: every path of O' is a file an earlier run left; f1 FRESH: every path of O' is
    absent.  Otherwise as in stale_independence_program_thm (kinds agree on the declared paths
